@@ -1,5 +1,7 @@
 (* C06 -- changes that do not meet (different keys / no chunk fed by both sides) merge without conflict.
    Statements only; proofs live in Merge/MergeProofs.v. *)
+From Coq Require Import String.
+From NB Require Import Diff.Codec.
 From Coq Require Import List ZArith.
 From NB Require Import Base.Res.
 From NB Require Import Base.Json.
@@ -13,6 +15,8 @@ From NB Require Import Merge.MergeGeneric.
 From NB Require Import Merge.MergeProofs.
 From NB Require Import Merge.MergeSmallScope.
 From NB Require Import Gen.MergeFacts.
+From NB Require Import Diff.Patch Merge.MergeApplyProofs Merge.MergeDisjointFlat Merge.MergeOnesidedList Merge.MergeDisjointList Merge.MergeOnesidedObj Merge.MergeDisjointObj.
+From NB Require Import Diff.Wf.
 Import ListNotations.
 
 (* separated: for objects the two diffs name different keys; for lists and multi-line strings no chunk of
@@ -52,3 +56,85 @@ Theorem disjoint_merge_small_scope :
                     disjoint_ok chunks_guard entry_eq_strict conflict_assert_strict b l r = true).
 Proof. exact disjoint_small_scope. Qed.
 Print Assumptions disjoint_merge_small_scope.
+
+(* FULL statement for flat objects with ANY number of keys: for every object base and every two flat (add / remove / replace),
+   key-sorted object diffs naming DIFFERENT keys, the merge returns, no decision is conflicted, and applying the decisions gives
+   the document obtained by applying the two diffs one after the other -- in either order: both sides' changes are kept, nothing
+   else changes.  (Patch failures of an ill-fitting diff are outside the statement: the equation is conditional on the
+   sequential patches succeeding.) *)
+Theorem disjoint_flat_object_both_sides_kept : forall O cfg St H dl dr,
+  flat dl -> flat dr -> skeys_lt None dl -> skeys_lt None dr -> disjoint_keys dl dr -> forall kv, dl <> [] ->
+  exists decs,
+    decide_merge_with_diff O cfg St H chunks_guard entry_eq_strict conflict_assert_strict (JObj kv) dl dr = Ok decs
+    /\ no_conf decs
+    /\ (forall f x y, patch (S f) (JObj kv) dl = Ok x -> patch (S f) x dr = Ok y -> apply_decisions (JObj kv) decs = Ok y)
+    /\ (forall f x y, patch (S f) (JObj kv) dr = Ok x -> patch (S f) x dl = Ok y -> apply_decisions (JObj kv) decs = Ok y).
+Proof. exact (fun O cfg St H => disjoint_flat_both_kept O cfg St H chunks_guard entry_eq_strict conflict_assert_strict). Qed.
+Print Assumptions disjoint_flat_object_both_sides_kept.
+
+Theorem disjoint_flat_object_example :
+  let kv := [(of_ascii "a", JInt 1); (of_ascii "b", JInt 2); (of_ascii "c", JInt 3)] in
+  let dl := [DReplace (KS (of_ascii "a")) (JInt 9)] in
+  let dr := [DRemove (KS (of_ascii "b")); DAdd (KS (of_ascii "d")) (JInt 4)] in
+  flat dl /\ flat dr /\ skeys_lt None dl /\ skeys_lt None dr /\ disjoint_keys dl dr /\ dl <> []
+  /\ (do x <- patch 3 (JObj kv) dl; patch 3 x dr) = Ok (JObj [(of_ascii "a", JInt 9); (of_ascii "c", JInt 3); (of_ascii "d", JInt 4)]).
+Proof. exact disjoint_flat_example. Qed.
+Print Assumptions disjoint_flat_object_example.
+
+(* FULL statement for lists and flat diffs of ANY length (runs of items inserted / deleted, e.g. different cells added or removed
+   on the two sides): if no chunk receives entries from both sides (`separated`), then whenever the merge returns, no decision is
+   conflicted and applying the decisions is ONE patch of base by u = the chunk-ordered union of the two diffs (split on the
+   common section boundaries): every change of either side is applied exactly once and nothing else is. *)
+Theorem disjoint_flat_list_both_sides_kept : forall O cfg St H l dl dr decs,
+  lflat dl -> lflat dr -> separated chunks_guard (JArr l) dl dr ->
+  decide_merge_with_diff O cfg St H chunks_guard entry_eq_strict conflict_assert_strict (JArr l) dl dr = Ok decs ->
+  exists chunks u,
+    make_merge_chunks_with chunks_guard (length l) dl dr = Ok chunks /\ u = concat (map c_slots chunks)
+    /\ no_conf decs
+    /\ (u <> [] -> apply_decisions (JArr l) decs = patch (pfuel (JArr l) u) (JArr l) u).
+Proof.
+  intros O cfg St H l dl dr decs Fl Fr Hsep E.
+  apply (disjoint_flat_list O cfg St H chunks_guard entry_eq_strict conflict_assert_strict l dl dr decs Fl Fr); [|exact E].
+  intros chunks EC. specialize (Hsep chunks EC). eapply Forall_impl; [|exact Hsep]. intros [[[j k] a] b] X. exact X.
+Qed.
+Print Assumptions disjoint_flat_list_both_sides_kept.
+
+Theorem disjoint_flat_list_example_thm :
+  let l := [JInt 0; JInt 1; JInt 2; JInt 3; JInt 4] in
+  let dl := [DAddRange (KI 1) (VList [JInt 7])] in
+  let dr := [DRemoveRange (KI 3) 2] in
+  lflat dl /\ lflat dr
+  /\ (forall chunks, make_merge_chunks_with GuardListTruthy (length l) dl dr = Ok chunks -> Forall (fun c => c_d0 c = [] \/ c_d1' c = []) chunks)
+  /\ exists decs, decide_merge_with_diff O0 cfg0 no_strategies no_hooks GuardListTruthy false false (JArr l) dl dr = Ok decs
+       /\ apply_decisions (JArr l) decs = Ok (JArr [JInt 0; JInt 7; JInt 1; JInt 2]).
+Proof. exact disjoint_flat_list_example. Qed.
+Print Assumptions disjoint_flat_list_example_thm.
+
+(* FULL statement for OBJECT documents of any depth (notebooks are objects): the two sides change DIFFERENT top-level keys
+   (one edits metadata, the other edits cells, ...), each change nested to any depth, with diffs that are well-formed for the base
+   (Diff/Wf.v wf_diff, C11).  Then the merge returns, no decision is conflicted, and applying the decisions gives the document
+   obtained by applying the two diffs one after the other, in either order: exactly both changes. *)
+Theorem disjoint_object_both_sides_kept : forall O cfg St H kv dl dr f,
+  wfj (JObj kv) = true -> wf_diff f (JObj kv) dl = true -> wf_diff f (JObj kv) dr = true -> disjoint_keys dl dr ->
+  exists decs,
+    decide_merge_with_diff O cfg St H chunks_guard entry_eq_strict conflict_assert_strict (JObj kv) dl dr = Ok decs
+    /\ no_conf decs
+    /\ (forall m, depth (JObj kv) < m -> apply_decisions (JObj kv) decs = patch m (JObj kv) (union_diff dl dr))
+    /\ (forall m x y, depth (JObj kv) < m -> patch m (JObj kv) dl = Ok x -> patch m x dr = Ok y -> apply_decisions (JObj kv) decs = Ok y)
+    /\ (forall m x y, depth (JObj kv) < m -> patch m (JObj kv) dr = Ok x -> patch m x dl = Ok y -> apply_decisions (JObj kv) decs = Ok y).
+Proof. exact (fun O cfg St H => disjoint_object_both_kept O cfg St H chunks_guard entry_eq_strict conflict_assert_strict). Qed.
+Print Assumptions disjoint_object_both_sides_kept.
+
+Theorem disjoint_object_example :
+  let dl := [DReplace (KS (exo_s "m")) (JInt 2)] in
+  let dr := [DPatch (KS (exo_s "cells")) [DPatch (KI 0) [DPatch (KS (exo_s "source"))
+               [DAddRange (KI 1) (VList [JStr (exo_s "xy" ++ [10%N])]); DRemoveRange (KI 1) 1]]]] in
+  wfj exo_base = true /\ wf_diff 6 exo_base dl = true /\ wf_diff 6 exo_base dr = true /\ disjoint_keys dl dr
+  /\ (do x <- patch 6 exo_base dl; patch 6 x dr)
+     = Ok (JObj [(exo_s "cells", JArr [JObj [(exo_s "source", JStr (exo_s "ab" ++ [10%N] ++ exo_s "xy" ++ [10%N]))]]); (exo_s "m", JInt 2)]).
+Proof.
+  cbv zeta. split; [vm_compute; reflexivity|]. split; [vm_compute; reflexivity|]. split; [vm_compute; reflexivity|]. split.
+  - intros e e' [<-|[]] [<-|[]]. vm_compute. discriminate.
+  - vm_compute. reflexivity.
+Qed.
+Print Assumptions disjoint_object_example.
